@@ -323,6 +323,27 @@ def path_universe(tier, seed, heavy=True):
         r = random_relation(rng, und_pairs(N4) if cls == 'DynGraph' else dir_pairs(N4), T4, rng.choice((0.15, 0.3)))
         if r:
             yield cls, r, 'E'
+    # F  planted walks: a random walk of 3..6 hops over 4-5 nodes with strictly increasing times (one point interaction per
+    #    hop, no immediate reversal), plus up to 2 random extra cells: long time-respecting paths that revisit nodes
+    #    (a cycle through the target, a return to the source) exist by construction                      -- sampled
+    for k in range(160 if tier == 'quick' else 1500):
+        cls = ('DynGraph', 'DynDiGraph')[k % 2]
+        nodes = (1, 2, 3, 4) if k % 3 else (1, 2, 3, 4, 5)
+        hops = rng.randint(3, 6)
+        walk = [rng.choice(nodes)]
+        while len(walk) <= hops:
+            nxt = rng.choice([x for x in nodes if x != walk[-1] and (len(walk) < 2 or x != walk[-2])])
+            walk.append(nxt)
+        times = sorted(rng.sample(range(0, hops + 2), hops))
+        r = {}
+        for (a, b), q in zip(zip(walk, walk[1:]), times):
+            key = (a, b) if cls == 'DynDiGraph' else tuple(sorted((a, b)))
+            r[key] = frozenset(set(r.get(key, ())) | {q})
+        for _ in range(rng.randint(0, 2)):
+            a, b = rng.sample(nodes, 2)
+            key = (a, b) if cls == 'DynDiGraph' else tuple(sorted((a, b)))
+            r[key] = frozenset(set(r.get(key, ())) | {rng.randint(0, hops + 1)})
+        yield cls, r, 'F'
     if tier != 'quick':
         N5, T5 = (1, 2, 3, 4, 5), (0, 1, 2, 3, 5)
         for _ in range(300):
@@ -1151,6 +1172,15 @@ def c20_conformity(tier, seed):
             rels.append(('E', random_relation(rng, und_pairs((1, 2, 3, 4)), (0, 1, 2, 3), 0.3)))
     tmap = {0: 3, 1: 4, 2: 6}
     rels += [('D', {p: frozenset(tmap[q] for q in S) for p, S in r.items()}) for tag, r in rels[:40]]
+    # F: planted walks over 4 nodes and up to 7 instants (space F of path_universe, undirected): nodes whose reachable nodes sit
+    # at hop distances with holes (an intermediate node idle for a snapshot, a fast path longer than the slow one)
+    nF = 0
+    for cls_, r, tag_ in path_universe(tier, seed, heavy=True):
+        if tag_ == 'F' and cls_ == 'DynGraph':
+            rels.append(('F', r))
+            nF += 1
+            if nF >= (30 if tier == 'quick' else 300):
+                break
     alphas = [0.5, 1, 2.5]
     skipped = 0
     for gi, (tag, rel) in enumerate(rels):
@@ -1164,16 +1194,18 @@ def c20_conformity(tier, seed):
             continue
         sk = state_key(G)
         labs = labellings(ctx.nodes, rng, 2 if tier == 'quick' else 4)
-        if gi % 4 == 0:
+        if tag == 'F':
+            labs = labs[:1]                     # the homogeneous labelling (score 1 for every node that reaches another one)
+        if gi % 4 == 0 and tag != 'F':
             two = dict(labs[-1])
             two['grp'] = {n: rng.choice('pq') for n in ctx.nodes}
             labs.append(two)
         for lab in labs:
             ps = 2 if len(lab) > 1 else 1
             lj = _l(sorted((name, sorted(d.items(), key=repr)) for name, d in lab.items()))
-            for pt in PATH_TYPES:
-                for delta in (0, 1, 2):
-                    for start in range(ctx.ids[0], ctx.ids[-1] + 1):
+            for pt in (PATH_TYPES if tag != 'F' else PATH_TYPES[:2]):
+                for delta in ((0, 1, 2) if tag != 'F' else (3, 5)):
+                    for start in (range(ctx.ids[0], ctx.ids[-1] + 1) if tag != 'F' else (ctx.ids[0],)):
                         pr, nt = conformity_problems('DynGraph', h, lab, start, delta, alphas, ps, pt)
                         col.seen((sk, repr(lj), start, delta, pt), nt, {'history': h, 'labels': lj, 'call': [start, delta, pt]})
                         for check, detail in dict(pr).items():
